@@ -25,6 +25,10 @@ func runC11(c *Ctx) {
 	// match state to real ancestors: containment tests use a
 	// separator-terminated prefix (shared with C10)
 	r10_2(c, "R11.5")
+	// ... and only if the walk prunes nothing that Open would still show: the
+	// two prefix-only flags that allow pruning are computed from the patterns
+	// of the right polarity (shared with C10)
+	r10_6(c, "R11.6")
 }
 
 func r11_1(c *Ctx, rule string) {
